@@ -89,6 +89,7 @@ func registerAll() {
 	reg("L21", "raw CBOR heads are well formed: every EncodeRawBytes argument, evaluated to constant / run-time bytes (latest dominating write of each scratch position), parses as CBOR items whose first byte is a constant head announcing exactly the bytes that follow; run-time bytes only in announced payload positions; all-run-time chunks only as the announced payload (count * width) of a byte-string head", ruleL21)
 	reg("L22", "limit agreement between writer and reader: no decoder rejects an element / extra-data count that the encoders can write (two-byte count heads; extra-data indexes 0..maxInlinedExtraDataIndex), and each encoder refuses an extra-data index exactly when it exceeds maxInlinedExtraDataIndex", ruleL22)
 	reg("L20", "type-info references are resolved for every kind of inlined extra data: wherever the reference-resolving decoder is built, every callee handed a TypeInfoDecoder receives it (not the plain decoder)", ruleL20)
+	reg("G7", "shared global objects: every package-level variable that holds a reference is a sync.Pool, a function that captures nothing, a pointer to an in-package struct whose methods never write the receiver, or a slice/map that is only read; no method of another package's object is called through a global", ruleG7)
 	reg("G6", "arrival-independent outcome: no return inside a launcher's receive loop depends on the content of an individual worker result (which error is returned and what was applied before it must not depend on which worker finished first)", ruleG6)
 	reg("N5", "an outdated parent-updater never reads the former parent's slabs: the closure reaches slab storage only on the edge where an in-memory registry of the parent (keyed by the child's value id) still lists the child", ruleN5)
 	reg("I2", "iterator cursor advance: every exit of a Next/next method that hands out an element is preceded on all paths by a write of the iterator's cursor state (own field, nested iterator, or delegation to its own Next)", ruleI2)
@@ -146,8 +147,8 @@ func registerAll() {
 	}
 	propTable["C16"] = &PropSpec{
 		ID:          "C16",
-		Rules:       []string{"G1", "G2", "G3", "G4", "G5", "G6", "D4"},
-		Explanation: "every goroutine body's transitive may-effect set has no write to storage, container, slab or global state and no write through captured variables; maps read by workers are written by the launcher only after a receive loop counted to the number of queued jobs; workers defer wg.Done, wg.Add(n) dominates a loop launching n workers, close(results) is deferred after wg.Wait, job/result channels are buffered; after a non-deferred put no use of the pooled object or an alias is reachable (up to re-definition), with a deferred put no alias escapes; objects are Reset before Pool.Put; no package variable can be written after init through any API function. A pooled object is put at most once per Get (no non-deferred put beside a deferred one); the result channel has the capacity of the job queue whenever workers send unconditionally. The job channel is closed on every way out of a launcher; no return inside a launcher's receive loop depends on the content of an individual worker result (otherwise the error returned and the cache fills applied before it depend on which worker finished first - two open known findings: FastCommit, BatchPreload).",
+		Rules:       []string{"G1", "G2", "G3", "G4", "G5", "G6", "G7", "D4"},
+		Explanation: "every goroutine body's transitive may-effect set has no write to storage, container, slab or global state and no write through captured variables; maps read by workers are written by the launcher only after a receive loop counted to the number of queued jobs; workers defer wg.Done, wg.Add(n) dominates a loop launching n workers, close(results) is deferred after wg.Wait, job/result channels are buffered; after a non-deferred put no use of the pooled object or an alias is reachable (up to re-definition), with a deferred put no alias escapes; objects are Reset before Pool.Put; no package variable can be written after init through any API function. A pooled object is put at most once per Get (no non-deferred put beside a deferred one); the result channel has the capacity of the job queue whenever workers send unconditionally. The job channel is closed on every way out of a launcher; no return inside a launcher's receive loop depends on the content of an individual worker result (otherwise the error returned and the cache fills applied before it depend on which worker finished first - two open known findings: FastCommit, BatchPreload). Every package-level variable that holds a reference shares only immutable or concurrency-safe objects (pools, capture-free functions, read-only tables, stateless sentinels): no method of another package's object (a shared hasher, encoder or buffer) is called through a global.",
 		NotDecided:  "sequential equality of the results of a concurrent run (only through C04), races inside client callbacks, retention of pooled objects by callees.",
 		Technique:   "may-effect summaries over the call graph, dominance by drain-loop exits, alias taint for pooled objects",
 	}
